@@ -50,6 +50,7 @@ func TestVerifC11(t *testing.T) {
 		for _, k := range []string{"fixed-ttl", "fixed-never", "two", "two-fixed", "two-fixed-rev", "two-ttl"} {
 			cfgs = append(cfgs, pwCfg{Trunk: trunk, Kinds: []string{k}})
 		}
+		cfgs = append(cfgs, pwCfg{Trunk: trunk, Kinds: []string{"fixed-ttl"}, SplitGC: true})
 	}
 	pwRunBFS(r, t, "C11", cfgs, depth, func(cfg pwCfg) [][]string {
 		unbound := append(bound(0), "podRemove:0", "reconcilePod:0", "reconcilePodENI:0")
